@@ -43,7 +43,8 @@ Record panic_guards := {
   g_denom : bool;        (* bankMsgSend: sdk.ValidateDenom(denom) checked before sdk.NewCoin *)
   g_amount : bool;       (* bankMsgSend: amount sign checked before sdk.NewCoin *)
   g_evm_denom : bool;    (* sendToEvm: sdk.ValidateDenom(bankDenom) before the FunTokens index lookup *)
-  g_erc20_nul : bool     (* getErc20Address: NUL characters rejected before the FunTokens index lookup *)
+  g_erc20_nul : bool;    (* getErc20Address: NUL characters rejected before the FunTokens index lookup *)
+  g_supply : bool        (* sendToBank: bank supply + amount checked against 256 bits before MintCoins *)
 }.
 
 Record facts := {
@@ -62,6 +63,7 @@ Definition f_denom_guard (F : facts) := g_denom (f_guards F).
 Definition f_amount_guard (F : facts) := g_amount (f_guards F).
 Definition f_evm_denom_guard (F : facts) := g_evm_denom (f_guards F).
 Definition f_erc20_nul_guard (F : facts) := g_erc20_nul (f_guards F).
+Definition f_supply_guard (F : facts) := g_supply (f_guards F).
 
 Inductive pcid := PFunToken | PWasm | POracle.
 
@@ -264,8 +266,14 @@ Section Run.
   (** Body oracle = the keeper-level work behind the validators, run on the cache context with the
       local gas meter of limit [lim].  It returns the (possibly dirty) state and the gas the meter
       recorded; [BOog] = the meter panicked with sdk.ErrorOutOfGas. *)
-  Inductive bres := BOk (st : St) (used : Z) | BErr (st : St) (used : Z) | BOog (st : St).
+  Inductive bres :=
+  | BOk (st : St) (used : Z) | BErr (st : St) (used : Z) | BOog (st : St)
+  | BMint (st : St) (supply amt : Z).
+  (** [BMint st supply amt]: the body (sendToBank on an ERC20-born FunToken) is about to call
+      bank.MintCoins for [amt] while the denom's supply is [supply]; sdkmath.Int.Add panics when the
+      sum needs more than 256 bits.  The rest of the body is [after_mint]. *)
   Variable body : mid -> list arg -> St -> Z -> bres.
+  Variable after_mint : mid -> list arg -> St -> Z -> bres.
   Variable transfer : St -> Z -> St.     (* core.Transfer(caller -> precompile account, value) *)
 
   Record result := { r_out : outcome; r_left : Z; r_st : St }.
@@ -299,12 +307,23 @@ Section Run.
              else {| r_out := Panic; r_left := g1; r_st := st |}
          | VPass =>
              let lim := g1 in
+             let finish (b : bres) : result :=
+               match b with
+               | BOk st' u => if f_local_meter F && (lim <? u) then oog P g1 st'
+                              else {| r_out := Ok; r_left := charge P g1 u; r_st := st' |}
+               | BErr st' u => if f_local_meter F && (lim <? u) then oog P g1 st'
+                               else {| r_out := Err; r_left := charge P g1 u; r_st := st' |}
+               | BOog st' => oog P g1 st'
+               | BMint st' _ _ => {| r_out := Err; r_left := g1; r_st := st' |}   (* not a shape [after_mint] takes *)
+               end in
              match body (mf_id mf) args st lim with
-             | BOk st' u => if f_local_meter F && (lim <? u) then oog P g1 st'
-                            else {| r_out := Ok; r_left := charge P g1 u; r_st := st' |}
-             | BErr st' u => if f_local_meter F && (lim <? u) then oog P g1 st'
-                             else {| r_out := Err; r_left := charge P g1 u; r_st := st' |}
-             | BOog st' => oog P g1 st'
+             | BMint st' supply amt =>
+                 if two256 <=? supply + amt then
+                   (if f_supply_guard F then {| r_out := Err; r_left := g1; r_st := st' |}
+                    else if pf_oog_deferred P && negb (f_oog_only F) then {| r_out := OutOfGas; r_left := g1; r_st := st' |}
+                    else {| r_out := Panic; r_left := g1; r_st := st' |})
+                 else finish (after_mint (mf_id mf) args st' lim)
+             | b => finish b
              end
          end.
 
@@ -346,7 +365,7 @@ Section Run.
     end.
 End Run.
 
-Arguments BOk {St}. Arguments BErr {St}. Arguments BOog {St}.
+Arguments BOk {St}. Arguments BErr {St}. Arguments BOog {St}. Arguments BMint {St}.
 Arguments r_out {St}. Arguments r_left {St}. Arguments r_st {St}.
 
 (* ------------------------------------------------------------------ variants of a facts record *)
@@ -357,15 +376,18 @@ Definition with_guards (F : facts) (g : panic_guards) : facts :=
      f_call_inherits_static := f_call_inherits_static F |}.
 
 Definition all_guards : panic_guards :=
-  {| g_len := true; g_denom := true; g_amount := true; g_evm_denom := true; g_erc20_nul := true |}.
+  {| g_len := true; g_denom := true; g_amount := true; g_evm_denom := true; g_erc20_nul := true; g_supply := true |}.
 (** the pinned tree, before fix: 7d2b3b1 *)
 Definition no_len_guard : panic_guards :=
-  {| g_len := false; g_denom := true; g_amount := true; g_evm_denom := true; g_erc20_nul := true |}.
+  {| g_len := false; g_denom := true; g_amount := true; g_evm_denom := true; g_erc20_nul := true; g_supply := true |}.
 Definition no_denom_guard : panic_guards :=
-  {| g_len := true; g_denom := false; g_amount := false; g_evm_denom := true; g_erc20_nul := true |}.
+  {| g_len := true; g_denom := false; g_amount := false; g_evm_denom := true; g_erc20_nul := true; g_supply := true |}.
 (** before the NUL-character fix *)
 Definition no_nul_guards : panic_guards :=
-  {| g_len := true; g_denom := true; g_amount := true; g_evm_denom := false; g_erc20_nul := false |}.
+  {| g_len := true; g_denom := true; g_amount := true; g_evm_denom := false; g_erc20_nul := false; g_supply := true |}.
+(** before the supply-overflow fix *)
+Definition no_supply_guard : panic_guards :=
+  {| g_len := true; g_denom := true; g_amount := true; g_evm_denom := true; g_erc20_nul := true; g_supply := false |}.
 
 Definition with_oracle_oog (F : facts) (b : bool) : facts :=
   {| f_funtoken := f_funtoken F; f_wasm := f_wasm F;
